@@ -18,7 +18,7 @@
                                                 fld_*       (FromBytes / FromWideBytes)
      algebra/impl/fields/sqrt.go, pow.go        ts_sqrt                                     *)
 From Coq Require Import ZArith List Bool Lia.
-Require Import V.base.Fld V.model.CurveParams V.model.Curve.
+Require Import V.base.Fld V.model.CurveParams V.model.Curve V.gen.Formulas.
 Import ListNotations.
 Local Open Scope Z_scope.
 
@@ -258,6 +258,191 @@ Definition blsg1_from_affine (c : wcodec) (x y : Z) : option wpt :=
   | Some P => if w_torsion_free c P then Some P else None
   end.
 
+(* ---- BLS12-381 G2: the same ZCash format over F_p[u]/(u^2+1), coordinates c1 || c0 ---------- *)
+
+Definition z2 := (Z * Z)%type.                 (* (c0, c1) = c0 + c1 u *)
+Definition w2pt := @wpoint z2.
+
+(* base-field Tonelli–Shanks constants + coordinate size of ONE F_p coefficient *)
+Record w2codec := mk_w2codec { w2c : w2params; w2c_e : nat; w2c_g : Z; w2c_rou : Z; w2c_len : nat }.
+Definition w2c_p (c : w2codec) := w2_p (w2c c).
+Definition w2c_sqrt_p (c : w2codec) (v : Z) : option Z := ts_sqrt (w2c_p c) (w2c_e c) (w2c_g c) (w2c_rou c) v.
+Definition K2 (c : w2codec) : fops z2 := Fp2 (w2c_p c).
+
+(* fields.QuadraticFieldExtensionImpl.Sqrt (beta = -1), the repaired version: the generic branch
+   (norm, (v0 +- sqrt norm)/2, the root of the "neg" candidate wins when both exist, c1 = v1/(2 c0))
+   and the base-field branch for v1 = 0 *)
+Definition fp2_sqrt (c : w2codec) (v : z2) : option z2 :=
+  let p := w2c_p c in
+  let '(v0, v1) := v in
+  if v1 =? 0 then
+    match w2c_sqrt_p c v0 with
+    | Some s0 => Some (s0, 0)
+    | None =>
+        match w2c_sqrt_p c (negm p v0) with      (* v0 / beta *)
+        | Some s1 => Some (0, s1)
+        | None => None
+        end
+    end
+  else
+    match w2c_sqrt_p c (addm p (mulm p v0 v0) (mulm p v1 v1)) with
+    | None => None
+    | Some rt =>
+        let half := zp_inv p (2 mod p) in
+        let pos := mulm p (addm p v0 rt) half in
+        let neg := mulm p (subm p v0 rt) half in
+        let root := match w2c_sqrt_p c neg with Some sn => Some sn | None => w2c_sqrt_p c pos end in
+        match root with
+        | None => None
+        | Some r0 =>
+            let com2 := addm p r0 r0 in
+            if com2 =? 0 then None else Some (r0, mulm p (zp_inv p com2) v1)
+        end
+    end.
+
+(* SetAffine / SetFromAffineX over Fp2: Square; AddA (a = 0: identity); Mul; AddB *)
+Definition w2_rhs (c : w2codec) (x : z2) : z2 :=
+  fadd (K2 c) (fmul (K2 c) (fmul (K2 c) x x) x) (w2_b (w2c c)).
+
+Definition w2_set_affine (c : w2codec) (x y : z2) : option w2pt :=
+  if feqb (K2 c) (fmul (K2 c) y y) (w2_rhs c x) then Some (Some (x, y)) else None.
+
+(* g2.go isNegative: lexicographic, c1 first *)
+Definition is_neg2 (p : Z) (y : z2) : bool :=
+  is_neg p (snd y) || ((snd y =? 0) && is_neg p (fst y)).
+
+Definition w2_torsion_free (c : w2codec) (P : w2pt) : bool :=
+  match w2_mul (w2c c) (w2_n (w2c c)) P with None => true | Some _ => false end.
+
+Definition blsg2_dec_c (c : w2codec) (bs : list Z) : option w2pt :=
+  if negb (Nat.eqb (length bs) (2 * w2c_len c)) then None
+  else match bs with
+       | [] => None
+       | b0 :: r =>
+           if negb (flagC b0 =? 1) then None
+           else if flagI b0 =? 1 then
+             if flagS b0 =? 1 then None
+             else if (b0 mod 32 =? 0) && all_zero r then Some None else None
+           else
+             let x1 := be_val ((b0 mod 32) :: firstn (w2c_len c - 1) r) mod w2c_p c in
+             let x0 := be_val (skipn (w2c_len c - 1) r) mod w2c_p c in
+             let x := (x0, x1) in
+             match fp2_sqrt c (w2_rhs c x) with
+             | None => None
+             | Some y =>
+                 let y' := if xorb (is_neg2 (w2c_p c) y) (flagS b0 =? 1) then fopp (K2 c) y else y in
+                 let P := Some (x, y') in
+                 if w2_torsion_free c P then Some P else None
+             end
+       end.
+
+Definition blsg2_enc_c (c : w2codec) (P : w2pt) : list Z :=
+  let hi := 2 ^ (8 * Z.of_nat (w2c_len c) - 1) in
+  match P with
+  | None => be_enc (w2c_len c) (hi + hi / 2) ++ zeros (w2c_len c)
+  | Some ((x0, x1), y) =>
+      be_enc (w2c_len c) (x1 + hi + (if is_neg2 (w2c_p c) y then hi / 4 else 0)) ++ be_enc (w2c_len c) x0
+  end.
+
+Definition blsg2_dec_u (c : w2codec) (bs : list Z) : option w2pt :=
+  if negb (Nat.eqb (length bs) (4 * w2c_len c)) then None
+  else match bs with
+       | [] => None
+       | b0 :: r =>
+           if flagC b0 =? 1 then None
+           else if flagS b0 =? 1 then None
+           else if flagI b0 =? 1 then
+             if (b0 mod 32 =? 0) && all_zero r then Some None else None
+           else
+             let n := w2c_len c in
+             let x1 := be_val ((b0 mod 32) :: firstn (n - 1) r) mod w2c_p c in
+             let r1 := skipn (n - 1) r in
+             let x0 := be_val (firstn n r1) mod w2c_p c in
+             let r2 := skipn n r1 in
+             let y1 := be_val (firstn n r2) mod w2c_p c in
+             let y0 := be_val (skipn n r2) mod w2c_p c in
+             match w2_set_affine c (x0, x1) (y0, y1) with
+             | None => None
+             | Some P => if w2_torsion_free c P then Some P else None
+             end
+       end.
+
+Definition blsg2_enc_u (c : w2codec) (P : w2pt) : list Z :=
+  let n := w2c_len c in
+  match P with
+  | None => 64 :: zeros (4 * n - 1)
+  | Some ((x0, x1), (y0, y1)) => be_enc n x1 ++ be_enc n x0 ++ be_enc n y1 ++ be_enc n y0
+  end.
+
+Definition blsg2_from_affine (c : w2codec) (x y : z2) : option w2pt :=
+  match w2_set_affine c x y with
+  | None => None
+  | Some P => if w2_torsion_free c P then Some P else None
+  end.
+
+(* ---- BLS12-381 GT: Gt.FromBytes = twelve reduced F_p coefficients + membership x^r = 1 ---------
+   The tower Fp12 = Fp6[w]/(w^2 - v), Fp6 = Fp2[v]/(v^3 - (1+u)); multiplication by the formulas
+   regenerated from algebra/impl/fields/{quadratic,cubic}.go (gen/Formulas.v Q_Mul, C_Mul). *)
+
+Definition z6 := (z2 * z2 * z2)%type.
+Definition z12 := (z6 * z6)%type.
+
+Definition xi2 (p : Z) : z2 := (1 mod p, 1 mod p).            (* cubic non-residue 1 + u *)
+
+Definition fp6_mul (p : Z) (x y : z6) : z6 :=
+  let '(x0, x1, x2) := x in let '(y0, y1, y2) := y in
+  C_Mul (Fp2 p) (xi2 p) x0 x1 x2 y0 y1 y2.
+
+(* only +, -, * and negation of this record are used (by Q_Mul); inversion is not modelled *)
+Definition Fp6ops (p : Z) : fops z6 :=
+  let K := Fp2 p in
+  let lift2 (f : z2 -> z2 -> z2) (x y : z6) : z6 :=
+    let '(x0, x1, x2) := x in let '(y0, y1, y2) := y in (f x0 y0, f x1 y1, f x2 y2) in
+  {| f0 := (f0 K, f0 K, f0 K); f1 := (f1 K, f0 K, f0 K);
+     fadd := lift2 (fadd K); fmul := fp6_mul p; fsub := lift2 (fsub K);
+     fopp := fun x => let '(x0, x1, x2) := x in (fopp K x0, fopp K x1, fopp K x2);
+     finv := fun x => x; fdiv := fun x _ => x;
+     feqb := fun x y => let '(x0, x1, x2) := x in let '(y0, y1, y2) := y in
+                        feqb K x0 y0 && feqb K x1 y1 && feqb K x2 y2 |}.
+
+Definition beta6 (p : Z) : z6 := ((0, 0), (1 mod p, 0), (0, 0)).   (* v *)
+
+Definition fp12_mul (p : Z) (x y : z12) : z12 :=
+  Q_Mul (Fp6ops p) (beta6 p) (fst x) (snd x) (fst y) (snd y).
+
+Definition fp12_one (p : Z) : z12 := (f1 (Fp6ops p), f0 (Fp6ops p)).
+
+Definition fp12_eqb (p : Z) (x y : z12) : bool :=
+  feqb (Fp6ops p) (fst x) (fst y) && feqb (Fp6ops p) (snd x) (snd y).
+
+Definition fp12_pow (p : Z) (x : z12) (e : Z) : z12 :=
+  match e with Zpos n => Pos.iter_op (fp12_mul p) n x | _ => fp12_one p end.
+
+Fixpoint chunks (n : nat) (k : nat) (l : list Z) : list (list Z) :=   (* k chunks of n *)
+  match k with O => [] | S k' => firstn n l :: chunks n k' (skipn n l) end.
+
+(* coefficient order of impl/gt.go: U0.U0.U0, U0.U0.U1, U0.U1.U0, ... U1.U2.U1 *)
+Definition gt_of_coeffs (l : list Z) : option z12 :=
+  match l with
+  | [a0; a1; a2; a3; a4; a5; b0; b1; b2; b3; b4; b5] =>
+      Some (((a0, a1), (a2, a3), (a4, a5)), ((b0, b1), (b2, b3), (b4, b5)))
+  | _ => None
+  end.
+
+Definition gt_coeffs (x : z12) : list Z :=
+  let '(((a0, a1), (a2, a3), (a4, a5)), ((b0, b1), (b2, b3), (b4, b5))) := x in
+  [a0; a1; a2; a3; a4; a5; b0; b1; b2; b3; b4; b5].
+
+Definition gt_from_bytes (p r : Z) (len : nat) (bs : list Z) : option z12 :=
+  if negb (Nat.eqb (length bs) (12 * len)) then None
+  else match gt_of_coeffs (map (fun ch => be_val ch mod p) (chunks len 12 bs)) with
+       | None => None
+       | Some x => if fp12_eqb p (fp12_pow p x r) (fp12_one p) then Some x else None
+       end.
+
+Definition gt_bytes (len : nat) (x : z12) : list Z :=
+  concat (map (be_enc len) (gt_coeffs x)).
+
 (* ---- twisted Edwards: edwards25519 ------------------------------------------------------- *)
 
 Record ecodec := mk_ecodec { ec : eparams; ec_e : nat; ec_g : Z; ec_rou : Z; ec_len : nat }.
@@ -456,6 +641,8 @@ Definition vesta_codec : wcodec :=
     0x2de6a9b8746d3f589e5c4dfd492ae26e9bb97ea3c106f049a70e2c1102b6d05f 32.
 Definition blsg1_codec : wcodec :=
   mk_wcodec bls12381g1_params 1 (ts_progenitor bls12381_p 1) (bls12381_p - 1) 48.
+Definition blsg2_codec : w2codec :=
+  mk_w2codec bls12381g2_params 1 (ts_progenitor bls12381_p 1) (bls12381_p - 1) 48.
 Definition ed25519_codec : ecodec :=
   mk_ecodec ed25519_params 2 (ts_progenitor (ep_p ed25519_params) 2)
     0x2b8324804fc1df0b2b4d00993dfbd7a72f431806ad2fe478c4ee1b274a0ea0b0 32.
@@ -503,6 +690,16 @@ Definition blsg1_codec_f (_ : unit) : wcodec :=
   mk_wcodec (mk_wparams p 0 4
       0x17f1d3a73197d7942695638c4fa9ac0fc3688c4f9774b905a14e3a3f171bac586c55e83ff97a1aeffb3af00adb22c6bb
       0x08b3f481e3aaa0f1a09e30ed741d8ae4fcf5e095d5d00af600db18cb2c04b3edd03cc744a2888ae40caa232946c5e7e1
+      0x73eda753299d7d483339d80809a1d80553bda402fffe5bfeffffffff00000001 1)
+    1 (ts_progenitor p 1) (p - 1) 48.
+
+Definition blsg2_codec_f (_ : unit) : w2codec :=
+  let p := 0x1a0111ea397fe69a4b1ba7b6434bacd764774b84f38512bf6730d2a0f6b0f6241eabfffeb153ffffb9feffffffffaaab in
+  mk_w2codec (mk_w2params p (0, 0) (4, 4)
+      (0x024aa2b2f08f0a91260805272dc51051c6e47ad4fa403b02b4510b647ae3d1770bac0326a805bbefd48056c8c121bdb8,
+       0x13e02b6052719f607dacd3a088274f65596bd0d09920b61ab5da61bbdc7f5049334cf11213945d57e5ac7d055d042b7e)
+      (0x0ce5d527727d6e118cc9cdc6da2e351aadfd9baa8cbdd3a76d429a695160d12c923ac9cc3baca289e193548608b82801,
+       0x0606c4a02ea734cc32acd2b02bc28b99cb3e287e85a763af267492ab572e99ab3f370d275cec1da1aaa9075ff05f79be)
       0x73eda753299d7d483339d80809a1d80553bda402fffe5bfeffffffff00000001 1)
     1 (ts_progenitor p 1) (p - 1) 48.
 
